@@ -13,6 +13,6 @@ CFG = {
         "PublicRandStream is tied by the translator (Gen/StreamCalls.v: store := bp.beacon.Store(); return beacon.SyncChain(..., store, proxyReq, proxyStr); proxies forward round and fields unchanged), not executed",
     ],
     "assumptions": [],
-    "level_text": "Proved for ALL schedules (any interleaving of appends, stream starts at any round, Send completions with success or failure, registrations; any number of concurrent streams and same-id reconnects) on both cursor kinds (bolt snapshot, memdb live index): what a stream has sent is a prefix of the stored beacons from its start position - every round once, in order, equal to the stored beacon (C11_full, C11_rounds, C11_start_round), and after AddCallback a prefix of the store from the registration position on (C11_order_live). The schedule that used to lose a beacon in the hand-over window is kept as a regression case in the model (C11_witness_repaired) and in the engine. The model is compared with the real SyncChain over the real callback store on memdb, trimmed bolt and untrimmed bolt under harness-chosen interleavings.",
+    "level_text": "Proved for ALL schedules (any interleaving of appends, stream starts at any round, Send completions with success or failure, registrations; any number of concurrent streams and same-id reconnects) on both cursor kinds (bolt snapshot, memdb live index): what a stream has sent is a prefix of the stored beacons from its start position - every round once, in order, equal to the stored beacon (C11_full, C11_rounds, C11_start_round), and after AddCallback a prefix of the store from the registration position on (C11_order_live). The schedule that used to lose a beacon in the hand-over window is kept as a regression case in the model (C11_witness_repaired) and in the engine. Every exit of SyncChain unregisters its callback (C11_ended_stream_unregistered, C11_registered_le_live, and the obligation C11_sync_chain_exits_unregister on the source). The model is compared with the real SyncChain over the daemon's store stack callback(append(scheme(back-end))) with a chained and an unchained scheme and over the bare callback store, on memdb, trimmed bolt and untrimmed bolt, under harness-chosen interleavings; delivered beacons are compared with the stored ones including the previous signature, and the callbacks left in the real callback store with the model's registrations.",
     "level_note": "Kernel-checked, no axioms. The bbolt read-transaction snapshot, gRPC buffering and Go scheduling inside a step are assumed/modelled, validated by the correspondence, not verified.",
 }
